@@ -76,9 +76,27 @@ fn run_cell(cfg: &RunCfg, s: usize, m: u64, l: u64, declared: bool, expect: bool
         meta: None,
     };
     handler::set_plan(&req.path, req.plan.clone());
+    // A declared-length upload that the client cuts short (sends fewer bytes than it
+    // announced, then half-closes): nothing may be handed over as if it were the body.
+    let cut_short: Option<usize> = if declared && l > 0 && gen::ratio(1, 8) { Some(gen::pick(&[0usize, 1, (l / 2) as usize, (l - 1) as usize]).min((l - 1) as usize)) } else { None };
+    let mut req = req;
+    if cut_short.is_some() {
+        req.expect = false;
+        req.wait100 = false;
+    }
     let reqs = vec![req];
     let frag = gen::pick(&[Frag::Whole, Frag::Random, Frag::Random]);
-    let mut cl = client_for(&reqs, gen::ratio(1, 2), frag);
+    let mut cl = match cut_short {
+        Some(k) => {
+            gen::count("fault.upload_cut_short_by_fin");
+            let body = reqs[0].body();
+            crate::engine::server::Client::new(
+                vec![crate::engine::server::Op::Connect, crate::engine::server::Op::Send(reqs[0].head()), crate::engine::server::Op::Send(body[..k.min(body.len())].to_vec()), crate::engine::server::Op::Fin, crate::engine::server::Op::AwaitFinal(1)],
+                frag,
+            )
+        }
+        None => client_for(&reqs, gen::ratio(1, 2), frag),
+    };
     cl.slow_read = gen::ratio(1, 4);
     eng.add_client(cl);
     eng.run(&mut NoExtras);
@@ -97,6 +115,17 @@ fn run_cell(cfg: &RunCfg, s: usize, m: u64, l: u64, declared: bool, expect: bool
     let exp = model_conn(&reqs, &scfg);
     let calls = handler::calls();
     let at_eof = with(|w| w.client_at_eof(conn));
+    if let Some(k) = cut_short {
+        let cell = format!("{cell}; the client sent only {k} of the {l} announced body bytes and half-closed");
+        if let Some(c) = calls.iter().find(|c| !c.pending) {
+            return Outcome::fail("C09.body_intact", format!("{cell}: the handler was run with a body ({} bytes, kind {}) although the announced body never arrived completely", c.body.as_ref().map(|b| b.len()).unwrap_or(0), c.body_kind));
+        }
+        let (rs, _) = crate::oracle::http::parse_transcript(&cl.received);
+        if let Some(r) = rs.iter().find(|r| r.code / 100 == 2) {
+            return Outcome::fail("C09.decision_table", format!("{cell}: answered with {}", r.code));
+        }
+        return Outcome { nontrivial: true, case_hash: sim_core::tape::fnv1a(cell.as_bytes()), ..Default::default() };
+    }
     if let Some(mut v) = check_conn("C09", &cell, &exp, &calls, &cl.received, at_eof) {
         // name the decision-table clauses specifically
         if v.clause == "C09.response_content" || v.clause == "C09.handler_runs" || v.clause == "C09.response_count" {
@@ -149,15 +178,15 @@ fn sampled(cfg: &RunCfg) -> Outcome {
     let s = match gen::below(3) {
         0 => gen::below(300) as usize,
         1 => gen::below(5000) as usize,
-        _ => gen::pick(&[0usize, 1, 100, 8191, 8192, 8193, 65_536]),
+        _ => gen::pick(&[0usize, 1, 100, 8191, 8192, 8193, 65_536, 1 << 40, usize::MAX - 1, usize::MAX]),
     };
     let m = match gen::below(4) {
         0 => u64::from(gen::below(400)),
         1 => u64::from(gen::below(20_000)),
-        2 => s as u64 + u64::from(gen::below(3)),
+        2 => (s as u64).saturating_add(u64::from(gen::below(3))),
         _ => gen::pick(&[0u64, 65_536, 1 << 32, u64::MAX - 1, u64::MAX]),
     };
-    let near = gen::pick(&[0u64, s as u64, m.min(CLAMP)]);
+    let near = gen::pick(&[0u64, (s as u64).min(CLAMP), m.min(CLAMP)]);
     let l = (near + u64::from(gen::below(5))).saturating_sub(2).min(CLAMP);
     run_cell(cfg, s, m, l, gen::ratio(1, 2), gen::ratio(1, 3), gen::ratio(1, 3), gen::ratio(5, 6))
 }
@@ -289,13 +318,13 @@ pub fn spec() -> PropertySpec {
     PropertySpec {
         id: "C09",
         level: "exploration",
-        rule: "One upload per run against the real server in simulation. Enumerated stage: the full cross product S in {0,1,100,65536} x M in {0,1,S-1,S,S+1,70000,2^63,2^64-1} x L in {0,1,S-1,S,S+1,M-1,M,M+1,M+2} (clamped to 200 KiB) x {declared, undeclared} x {Expect, none} x {GetBodyAndReprocess(M), Request::recv_body(M)} x {cache dir, none} = 4608 cells, each run several times under different fragmentation / short-I/O / scheduling draws; sampled stage: S, M drawn freely, L within +-2 of 0, S, M; sequence stage: 2-4 declared-length uploads to ONE path on one keep-alive connection, each with its own L and its own handler limit M (no decision may be carried over from an earlier request). Clients that send Expect wait for the interim response (a lost 100 is a quiescence-detected deadlock). Oracle: reference decision table (in-memory hand-over iff declared L <= S, ask first otherwise, accept iff L <= M with byte-for-byte equal body, 413 without a second handler run iff L > M), resource invariants from the simulated file layer (bytes written to a cache file <= M+1, nothing written for a declared L > M, no in-memory body above S). distinct = the cell; runs/cell vary the schedule.",
+        rule: "One upload per run against the real server in simulation. Enumerated stage: the full cross product S in {0,1,100,65536} x M in {0,1,S-1,S,S+1,70000,2^63,2^64-1} x L in {0,1,S-1,S,S+1,M-1,M,M+1,M+2} (clamped to 200 KiB) x {declared, undeclared} x {Expect, none} x {GetBodyAndReprocess(M), Request::recv_body(M)} x {cache dir, none} = 4608 cells, each run several times under different fragmentation / short-I/O / scheduling draws; sampled stage: S, M drawn freely (S also 2^40, usize::MAX-1, usize::MAX), L within +-2 of 0, S, M; sequence stage: 2-4 declared-length uploads to ONE path on one keep-alive connection, each with its own L and its own handler limit M (no decision may be carried over from an earlier request). One declared upload in eight is cut short by the client (k of L announced bytes, then FIN): the handler must never be run with a body and no 2xx may be sent. Clients that send Expect wait for the interim response (a lost 100 is a quiescence-detected deadlock). Oracle: reference decision table (in-memory hand-over iff declared L <= S, ask first otherwise, accept iff L <= M with byte-for-byte equal body, 413 without a second handler run iff L > M), resource invariants from the simulated file layer (bytes written to a cache file <= M+1, nothing written for a declared L > M, no in-memory body above S). distinct = the cell; runs/cell vary the schedule.",
         scenarios: vec![
             Scenario { name: "c09.cross_product", property: "C09", func: cross_product, runs_quick: 4608 * 12, runs_thorough: 4608 * 400, doc: "full cross product" },
             Scenario { name: "c09.sampled", property: "C09", func: sampled, runs_quick: 150_000, runs_thorough: 4_000_000, doc: "free S, M; L near the boundaries" },
             Scenario { name: "c09.same_path_sequence", property: "C09", func: same_path_sequence, runs_quick: 60_000, runs_thorough: 1_500_000, doc: "2-4 uploads to one path on one connection, each with its own limit" },
         ],
-        required_probes: vec!["probe.undeclared_over_limit", "probe.declared_exactly_at_limit", "probe.limit_u64_max_undeclared", "probe.two_uploads_same_path_handled", "probe.eintr_during_upload_sequence"],
+        required_probes: vec!["probe.undeclared_over_limit", "probe.declared_exactly_at_limit", "probe.limit_u64_max_undeclared", "probe.two_uploads_same_path_handled", "probe.eintr_during_upload_sequence", "fault.upload_cut_short_by_fin"],
         components: components_server(),
         assumptions: vec![
             "'holds in memory' is observed as the kind and size of the body object handed to the handler",
